@@ -515,9 +515,9 @@ class FixedWidthBinning(BinningBase):
         The quotient is only a first guess, it may be off by one for inexact widths.
         """
         index = int(np.floor((value - self._shift) / self._bin_width))
-        while self._grid_edge(index) > value:
+        if self._grid_edge(index) > value:
             index -= 1
-        while self._grid_edge(index + 1) <= value:
+        elif self._grid_edge(index + 1) <= value:
             index += 1
         return index
 
